@@ -17,8 +17,10 @@ descriptors vs the real output objects).
 Oracle (numpy only, never the Lean model): FFT coefficients of input vs output judged on TRUE bin
 frequencies, per-channel means, axis attributes, metamorphic linearity, idempotence, probes.
 """
+import json
 import numpy as np
 import common
+import c18_ext as X
 from common import Case, Failure, f2x, flist, parse_flist, close_vec
 
 PID = 'C18'
@@ -26,12 +28,20 @@ LEAN_TARGETS = ['Nitime.Props.C18']
 RULE = ('configurations = (method in fir/iir/filtered_fourier/filtered_boxcar) x (low-pass, high-pass, band-pass) x series '
         'length (both parities, 8..64 quick / ..256 thorough; fir/iir lengths > 3*(order+1)) x 1..4 channels x unit in s/ms/us x '
         'zero / non-zero t0 x sampling rates; band edges random off-bin and exactly on-bin; gaussian data with offsets; '
-        'distinct = distinct protocol line; non-trivial = data not constant')
-ASSUMPTIONS = ['0 <= lb < ub <= Nyquist; fir/iir series longer than 3*(order+1) (scipy.signal.filtfilt refuses equality)',
+        'distinct = distinct protocol line; non-trivial = data not constant. Session 3 (own random streams): non-default options per method '
+        '(windows incl. tuple windows, IIR types / ripples, iteration counts, orders); band edges on a bin and one ulp off (dyadic n, Fs); '
+        'families = 7 entry points x int16/int32/int64/uint8/float32/F/strided/read-only/big-endian/float64 x 1-d/2-d/3-d (expectation: the '
+        'C-contiguous float64 copy), amplitudes 1e-300..1e300, lb/ub spellings, coefficient spellings; sandwich histories (read all outputs, '
+        'other analyzers / options on the same series, scribble, fresh objects) and one fresh-process order reversal; refused values (3-d boxcar, 0 iterations)')
+ASSUMPTIONS = ['integer recordings within +-2*10^4 counts (scipy.signal.filtfilt extends the edges as 2*x0 - x in the input dtype); single precision (float32 data, or float32 coefficients with non-float64 data) judged at 1e-5 relative',
+               'not generated because the code refuses them / outside the quantifier: 3-d data for the boxcar (checked as a refusal), boxcar_iterations=0 (refusal), lb=None, ub=0, iir_ftype bessel (scipy.signal.iirdesign has no order selection), odd FIR orders, complex data',
+               '0 <= lb < ub <= Nyquist; fir/iir series longer than 3*(order+1) (scipy.signal.filtfilt refuses equality)',
                'the projection theorems are over C with an exact primitive root of unity; the Float DFT of the model and scipy.fftpack differ from it by rounding (1e-9 comparison)',
                'bins whose true frequency is within 1e-9 (relative) of a band edge are not judged by the oracle',
                'FIR/IIR pass/stop behaviour is NUMERIC ONLY (probe sinusoids; gain within [0.75, 1.05] in band, < 0.05 out of band, |phase| < 0.05 rad): partial']
-TRUSTED_EXTRA = ['scipy.fftpack.fft/ifft = DFT / inverse DFT (model computes its own naive transform)',
+TRUSTED_EXTRA = ['Generated/C18Opts.lean (harness/translate_c18.py) as the reading of the option-handling fragments of FilterAnalyzer / boxcar_filter (compared per run with where sentinel option values are seen to arrive: op optflow)',
+                 'Float.ofInt as the exact embedding of integer samples (|x| < 2^53) into binary64',
+                 'scipy.fftpack.fft/ifft = DFT / inverse DFT (model computes its own naive transform)',
                  'scipy.signal.filtfilt(b, a, x) = Model/FiltFilt.lean (odd padding of 3*max(len a, len b) samples, two direct-form-II-transposed passes started from lfilter_zi*edge sample, trimming): compared with the real FilterAnalyzer.filtfilt on every run (op ffmodel, rtol 1e-8); lfilter_zi(b, a) is taken from scipy as data (it does not depend on the signal)',
                  'scipy.signal.firwin / iirdesign: opaque designs; only their arguments are modelled',
                  'np.convolve, np.ceil, np.mean by their numpy semantics',
@@ -65,6 +75,7 @@ def run_method(cfg, data=None):
     kw = {'lb': cfg['lb'], 'ub': cfg['ub']}
     if cfg['method'] in ('fir', 'iir'):
         kw['filt_order'] = cfg.get('order', 8)
+    kw.update(X.dec_opts(cfg.get('opts')))
     fa = FA(T, **kw)
     return T, getattr(fa, cfg['method'])
 
@@ -215,6 +226,60 @@ def cmp_lists(rtol):
     return cmp
 
 
+def emit_cfg(cfg, rng, nr, out):
+    """all correspondence lines of one configuration (same order of random draws as ever)"""
+    from scipy import signal
+    ts, FA = nt()
+    method = cfg['method']
+    meta = {'kind': 'cfg', 'cfg': cfg}
+    r = common.call(lambda: run_method(cfg))
+    clause = '%s/%s' % (method, cfg['kind'])
+    nontriv = True
+    if isinstance(r, str):
+        out.append(Case('C18 axis %s' % method, r, clause + '/runs', meta=meta))
+        return
+    T, O = r
+    din, dout = rows(T.data), rows(O.data)
+    fsr = float(T.sampling_rate)      # the rate the analyzer sees (re-derived from the stored interval)
+    # ---- axis: forwarding of rate / t0 / unit
+    if cfg['unit'] != 's' and cfg['t0'] != 0:
+        flags = (int(O.sampling_interval == T.sampling_interval), int(np.all(np.asarray(O.t0) == np.asarray(T.t0))),
+                 int(O.time_unit == T.time_unit))
+        out.append(Case('C18 axis %s' % method, 'ok %d %d %d' % flags, 'axis/' + method, meta=meta))
+    if dout.shape != din.shape:
+        out.append(Case('C18 axis %s' % method, 'shape %s' % (dout.shape,), clause + '/shape', meta=meta))
+        return
+    chans = list(range(cfg['nch']))[:2]
+    if method == 'filtered_fourier':
+        for c in chans:
+            out.append(Case('C18 fourier %s %s %s %s' % (f2x(fsr), f2x(cfg['lb']), tok_ub(cfg['ub']), flist(din[c])),
+                            'ok ' + flist(dout[c]), clause, cmp=cmp_vec(), meta=dict(meta, ch=c)))
+    elif method == 'filtered_boxcar':
+        for c in chans:
+            out.append(Case('C18 boxcar %s %s %s %s' % (f2x(fsr), f2x(cfg['lb']), tok_ub(cfg['ub']), flist(din[c])),
+                            'ok ' + flist(dout[c]), clause, cmp=cmp_vec(), meta=dict(meta, ch=c)))
+    elif method == 'fir':
+        out.append(Case('C18 firplan %s %s %s %d %d' % (f2x(fsr), f2x(cfg['lb']), tok_ub(cfg['ub']), cfg['order'], cfg['n']),
+                        observe_fir(cfg), 'fir/plan/' + cfg['kind'], cmp=cmp_plan, meta=meta))
+    elif method == 'iir':
+        out.append(Case('C18 iirplan %s %s %s' % (f2x(fsr), f2x(cfg['lb']), tok_ub(cfg['ub'])),
+                        observe_iir(cfg), 'iir/plan/' + cfg['kind'], cmp=cmp_lists(1e-12), meta=meta))
+    # ---- the public filtfilt wrapper with a random (b, a): DC restoration
+    if method in ('fir', 'iir'):
+        b = nr.uniform(-1, 1, rng.randint(2, max(2, min(6, (cfg['n'] - 1) // 3))))   # filtfilt needs n > 3*len(b)
+        a = np.array([1.0]) if method == 'fir' else np.array([1.0, nr.uniform(-0.6, 0.6)])
+        Tn = mk_series(cfg)
+        r2 = common.call(lambda: FA(Tn).filtfilt(b, a))
+        if isinstance(r2, str):
+            out.append(Case('C18 restoredc - -', r2, 'filtfilt/wrapper', meta=meta))
+        else:
+            d2 = rows(r2.data)
+            for c in chans[:1]:
+                raw = signal.filtfilt(b, a, din[c])
+                out.append(Case('C18 restoredc %s %s' % (flist(din[c]), flist(raw)), 'ok ' + flist(d2[c]), 'filtfilt/wrapper',
+                                cmp=cmp_vec(), meta=dict(meta, ch=c, wrapper={'b': b.tolist(), 'a': a.tolist()})))
+
+
 def cases(rng, tier, seed):
     big = tier == 'thorough'
     nr = common.np_rng(PID, seed, 'data')
@@ -224,54 +289,7 @@ def cases(rng, tier, seed):
     ts, FA = nt()
     for method in METHODS:
         for i in range(ncfg):
-            cfg = gen_cfg(rng, nr, method, tier, i)
-            meta = {'kind': 'cfg', 'cfg': cfg}
-            r = common.call(lambda: run_method(cfg))
-            clause = '%s/%s' % (method, cfg['kind'])
-            nontriv = True
-            if isinstance(r, str):
-                out.append(Case('C18 axis %s' % method, r, clause + '/runs', meta=meta))
-                continue
-            T, O = r
-            din, dout = rows(T.data), rows(O.data)
-            fsr = float(T.sampling_rate)      # the rate the analyzer sees (re-derived from the stored interval)
-            # ---- axis: forwarding of rate / t0 / unit
-            if cfg['unit'] != 's' and cfg['t0'] != 0:
-                flags = (int(O.sampling_interval == T.sampling_interval), int(np.all(np.asarray(O.t0) == np.asarray(T.t0))),
-                         int(O.time_unit == T.time_unit))
-                out.append(Case('C18 axis %s' % method, 'ok %d %d %d' % flags, 'axis/' + method, meta=meta))
-            if dout.shape != din.shape:
-                out.append(Case('C18 axis %s' % method, 'shape %s' % (dout.shape,), clause + '/shape', meta=meta))
-                continue
-            chans = list(range(cfg['nch']))[:2]
-            if method == 'filtered_fourier':
-                for c in chans:
-                    out.append(Case('C18 fourier %s %s %s %s' % (f2x(fsr), f2x(cfg['lb']), tok_ub(cfg['ub']), flist(din[c])),
-                                    'ok ' + flist(dout[c]), clause, cmp=cmp_vec(), meta=dict(meta, ch=c)))
-            elif method == 'filtered_boxcar':
-                for c in chans:
-                    out.append(Case('C18 boxcar %s %s %s %s' % (f2x(fsr), f2x(cfg['lb']), tok_ub(cfg['ub']), flist(din[c])),
-                                    'ok ' + flist(dout[c]), clause, cmp=cmp_vec(), meta=dict(meta, ch=c)))
-            elif method == 'fir':
-                out.append(Case('C18 firplan %s %s %s %d %d' % (f2x(fsr), f2x(cfg['lb']), tok_ub(cfg['ub']), cfg['order'], cfg['n']),
-                                observe_fir(cfg), 'fir/plan/' + cfg['kind'], cmp=cmp_plan, meta=meta))
-            elif method == 'iir':
-                out.append(Case('C18 iirplan %s %s %s' % (f2x(fsr), f2x(cfg['lb']), tok_ub(cfg['ub'])),
-                                observe_iir(cfg), 'iir/plan/' + cfg['kind'], cmp=cmp_lists(1e-12), meta=meta))
-            # ---- the public filtfilt wrapper with a random (b, a): DC restoration
-            if method in ('fir', 'iir'):
-                b = nr.uniform(-1, 1, rng.randint(2, max(2, min(6, (cfg['n'] - 1) // 3))))   # filtfilt needs n > 3*len(b)
-                a = np.array([1.0]) if method == 'fir' else np.array([1.0, nr.uniform(-0.6, 0.6)])
-                Tn = mk_series(cfg)
-                r2 = common.call(lambda: FA(Tn).filtfilt(b, a))
-                if isinstance(r2, str):
-                    out.append(Case('C18 restoredc - -', r2, 'filtfilt/wrapper', meta=meta))
-                else:
-                    d2 = rows(r2.data)
-                    for c in chans[:1]:
-                        raw = signal.filtfilt(b, a, din[c])
-                        out.append(Case('C18 restoredc %s %s' % (flist(din[c]), flist(raw)), 'ok ' + flist(d2[c]), 'filtfilt/wrapper',
-                                        cmp=cmp_vec(), meta=dict(meta, ch=c, wrapper={'b': b.tolist(), 'a': a.tolist()})))
+            emit_cfg(gen_cfg(rng, nr, method, tier, i), rng, nr, out)
     # ---- scipy.signal.filtfilt ITSELF against its model (Model/FiltFilt.lean: odd padding, two direct-form-II-transposed
     # passes started from zi*edge, trimming), through the public FilterAnalyzer.filtfilt wrapper: real FIR designs
     # (firwin, as `fir` uses them, incl. the spectral inversion) and low-order IIR designs; zi = lfilter_zi is data
@@ -337,7 +355,70 @@ def cases(rng, tier, seed):
             return close_vec(got, [float(Fraction(t)) for t in model.split()[1].split(',')], rtol=1e-12)
         out.append(Case('C18 boxcarq %d %s %s' % (mub, 'none' if mlb is None else mlb, ','.join(str(v) for v in xs)), impl,
                         'boxcar/exact', cmp=cmp_q, meta={'kind': 'boxq', 'xs': xs, 'mub': mub, 'mlb': mlb}))
+    # ==== session 3 (own random streams: the cases above are the same as ever) ====
+    import random
+    # ---- L3: non-default optional parameters (windows incl. tuple windows, IIR types / ripples, iteration counts, orders)
+    xr = random.Random('C18-opts-%d' % seed)
+    nr2 = common.np_rng(PID, seed, 'optdata')
+    for method in METHODS:
+        for i in range(150 if big else 24):
+            emit_cfg(with_opts(gen_cfg(xr, nr2, method, tier, i), xr, nr2), xr, nr2, out)
+    # ---- L4: band edges exactly on a bin and ONE ULP off (dyadic n and Fs: every float formula for the bin frequency is
+    # exact, so the closed band [lb, ub] decides the bin with no tolerance — in the code, the model and the oracle)
+    er = random.Random('C18-edges-%d' % seed)
+    for i in range(60 if big else 16):
+        cfg = gen_cfg(er, nr2, 'filtered_fourier', tier, i)
+        n = er.choice([8, 16, 32, 64])
+        fs = er.choice([1.0, 2.0, 0.5, 16.0, float(n)])
+        k1 = er.randint(1, n // 2 - 1)
+        k2 = er.randint(k1, n // 2)
+
+        def nudge(f):
+            return float(er.choice([f, np.nextafter(f, np.inf), np.nextafter(f, -np.inf)]))
+        lb, ub = nudge(k1 * fs / n), nudge(k2 * fs / n)
+        kind = er.choice(['lowpass', 'highpass', 'bandpass'])
+        if kind == 'lowpass':
+            lb = 0.0
+        elif kind == 'highpass':
+            ub = None
+        if ub is not None and not lb < ub:
+            continue
+        d = nr2.randn(cfg['nch'], n) * 3 + nr2.uniform(-5, 5, (cfg['nch'], 1))
+        cfg.update(n=n, fs=fs, lb=float(lb), ub=ub, kind=kind, data=[float(v) for v in d.ravel()])
+        emit_cfg(cfg, er, nr2, out)
+    # ---- L1 / L4: dtype / layout / dimension families and amplitudes for every entry point
+    for m in X.family_members(seed, tier):
+        out += X.fam_cases(m)
+    # ---- refused values (boxcar_iterations=0, 3-d data for the boxcar) and the n-d boxcar on small integers
+    out += X.refusal_cases(seed)
+    # ---- L3: where each optional parameter arrives, observed from outside vs the generated option-flow table
+    out.append(Case('C18 optflow', X.observe_optflow(), 'options/flow', meta={'kind': 'optflow'}))
+    # ---- L2 / L6: second passes of the sandwich histories
+    hr = random.Random('C18-sandwich-%d' % seed)
+    for i in range(20 if big else 6):
+        f, cs = X.sandwich(hr.randint(0, 10**6), want_cases=True)
+        out += cs
     return out
+
+
+def with_opts(cfg, xr, nr):
+    m = cfg['method']
+    opts = {}
+    if m == 'fir':
+        opts['fir_win'] = xr.choice(X.FIR_WINS)
+    elif m == 'iir':
+        ft, gp, gs = xr.choice(X.IIR_OPTS)
+        opts.update(iir_ftype=ft, gpass=gp, gstop=gs)
+        if cfg['n'] < 72:                       # the designs reach 15 coefficients: filtfilt needs n > 3*15
+            cfg['n'] += 32
+            d = nr.randn(cfg['nch'], cfg['n']) * nr.uniform(0.5, 5) + nr.uniform(-20, 20, (cfg['nch'], 1))
+            cfg['data'] = [float(v) for v in d.ravel()]
+    elif m == 'filtered_boxcar':
+        opts['boxcar_iterations'] = xr.choice([1, 3, 4, 7])
+    else:
+        opts.update(filt_order=xr.choice([2, 5]), fir_win='hann', gstop=xr.choice([10, 30]))   # not used by the Fourier filter
+    cfg['opts'] = opts
+    return cfg
 
 
 # ------------------------------------------------------------------ oracle
@@ -431,7 +512,7 @@ def judge_cfg(cfg, case=None, deep=True):
     return fails
 
 
-def probe(method, kind, rng):
+def probe(method, kind, rng, opts=None):
     """FIR / IIR on sinusoids well inside / outside the band (numeric only)"""
     ts, FA = nt()
     n, fs = 1024, 1.0
@@ -447,12 +528,13 @@ def probe(method, kind, rng):
     for name, f in (('in', fin), ('out', fout)):
         x = np.sin(2 * np.pi * f * t + ph) + 5.0
         T = ts.TimeSeries(x, sampling_rate=fs)
-        o = getattr(FA(T, lb=lb, ub=ub), method).data - 5.0
+        o = getattr(FA(T, lb=lb, ub=ub, **X.dec_opts(opts)), method).data - 5.0
         mid = slice(n // 4, 3 * n // 4)
         c = 2 * np.mean(o[mid] * np.exp(-1j * (2 * np.pi * f * t[mid] + ph)))     # complex amplitude relative to sin(.. + ph)
         gain, phase = abs(c), np.angle(c * 1j)       # sin = Im: amplitude of sin component is c*1j
         res[name] = (gain, phase)
-    rep = {'kind': 'probe', 'method': method, 'band': kind, 'ph': ph}
+    rep = {'kind': 'probe', 'method': method, 'band': kind, 'ph': ph, 'opts': opts}
+    kind = kind + ('' if not opts else '/options')
     g_in, p_in = res['in']
     g_out = res['out'][0]
     if not (0.75 <= g_in <= 1.05) or abs(p_in) > 0.05:
@@ -618,7 +700,53 @@ def oracle(rng, tier, seed, focus, cases_=None):
             f = judge_boxq(m, c)
             if f:
                 fails.append(f)
+    # ---- session 3: families (every member is judged, whether or not it produced a model line), histories, options
+    import random
+    fam_of_case = {}
+    for c in (cases_ or []):
+        if (c.meta or {}).get('kind') == 'fam':
+            fam_of_case.setdefault(json.dumps(c.meta, sort_keys=True), c)
+    n_fam = 0
+    for m in X.family_members(seed, tier):
+        n_fam += 1
+        fl, _ = X.judge_fam(m, case=fam_of_case.get(json.dumps(m, sort_keys=True)))
+        fails += fl
+    hr = random.Random('C18-sandwich-%d' % seed)
+    n_sw = 0
+    for i in range(60 if tier == 'thorough' else 16):
+        n_sw += 1
+        sd = hr.randint(0, 10**6)
+        r = common.call(lambda: X.sandwich(sd)[0])
+        if isinstance(r, str):
+            fails.append(Failure('sandwich/raises', 'history sd=%d raised %s' % (sd, r), {'kind': 'sandwich', 'sd': sd}))
+        elif r:
+            fails.append(r)
+    for i in range(10 if tier == 'thorough' else 3):
+        sd = hr.randint(0, 10**6)
+        r = common.call(lambda: X.option_equiv(sd))
+        if isinstance(r, str):
+            fails.append(Failure('options/raises', 'option equivalences sd=%d raised %s' % (sd, r), {'kind': 'optequiv', 'sd': sd}))
+        elif r:
+            fails.append(r)
+    for i in range(3 if tier == 'thorough' else 1):
+        r = common.call(lambda: X.order_history(seed * 10 + i))
+        if isinstance(r, str):
+            fails.append(Failure('order/raises', 'order history raised %s' % r, {'kind': 'order', 'seed': seed * 10 + i}))
+        elif r:
+            fails.append(r)
     nprobe = 0
+    for method, table in (('fir', X.FIR_WINS), ('iir', X.IIR_OPTS)):
+        for kind in ('lowpass', 'highpass', 'bandpass'):
+            for _ in range(3 if tier == 'thorough' else 1):
+                nprobe += 1
+                ch = hr.choice(table if method == 'fir' else [t for t in table if t[1] <= 1])   # filtfilt applies the design twice: 2*gpass dB of
+                #                                                       pass-band ripple is within the design for gpass > 1 (not judged: 'near-unit gain')
+                opts = {'fir_win': ch} if method == 'fir' else {'iir_ftype': ch[0], 'gpass': ch[1], 'gstop': ch[2]}
+                r = common.call(lambda: probe(method, kind, rng if False else hr, opts))
+                if isinstance(r, str):
+                    fails.append(Failure('probe/%s/%s/options/raises' % (method, kind), 'probe with %s raised: %s' % (opts, r), {'kind': 'probe', 'method': method, 'band': kind, 'ph': 0.3, 'opts': opts}))
+                elif r:
+                    fails.append(r)
     for method in ('fir', 'iir'):
         for kind in ('lowpass', 'highpass', 'bandpass'):
             for _ in range(3 if tier == 'thorough' else 1):
@@ -641,7 +769,7 @@ def oracle(rng, tier, seed, focus, cases_=None):
     keys = {}
     for f in fails:
         keys[f.key] = keys.get(f.key, 0) + 1
-    return fails, {'configurations_judged': nj, 'probes_numeric_only': nprobe, 'robustness_experiments': n_rb, 'failed': len(fails), 'failure_keys': keys}
+    return fails, {'family_members_judged': n_fam, 'sandwich_histories': n_sw, 'configurations_judged': nj, 'probes_numeric_only': nprobe, 'robustness_experiments': n_rb, 'failed': len(fails), 'failure_keys': keys}
 
 
 def replay(d):
@@ -654,6 +782,18 @@ def replay(d):
         return None
     if d.get('kind') == 'boxq':
         return judge_boxq(d)
+    if d.get('kind') == 'fam':
+        fl, _ = X.judge_fam(d, cache=False)
+        return fl[0] if fl else None
+    if d.get('kind') == 'sandwich':
+        r = common.call(lambda: X.sandwich(d['sd'])[0])
+        return Failure('sandwich/raises', r, d) if isinstance(r, str) else r
+    if d.get('kind') == 'order':
+        r = common.call(lambda: X.order_history(d['seed']))
+        return Failure('order/raises', r, d) if isinstance(r, str) else r
+    if d.get('kind') == 'optequiv':
+        r = common.call(lambda: X.option_equiv(d['sd']))
+        return Failure('options/raises', r, d) if isinstance(r, str) else r
     if d.get('kind') == 'robust':
         r = common.call(lambda: robust(d['name'], d['sd']))
         if isinstance(r, str):
@@ -664,7 +804,7 @@ def replay(d):
         class R:
             def uniform(self, a, b):
                 return d['ph']
-        r = common.call(lambda: probe(d['method'], d['band'], R()))
+        r = common.call(lambda: probe(d['method'], d['band'], R(), d.get('opts')))
         if isinstance(r, str):
             return Failure('probe/%s/%s/raises' % (d['method'], d['band']), r, d)
         return r
